@@ -245,6 +245,17 @@ class Tr:
             kind = self.scalar_kind(f.sub_fields[0], what + "{}")
         else:
             self.die(f"{what}: shape {f.shape}")
+        if f.shape == pf.SHAPE_LIST or "UList" in kind:
+            # Parse.v: a list-valued field takes an array (JArr).  A set (YAML '!!set') has no order: pydantic alone
+            # would turn it into a list in arbitrary order.  The repair sits in a pre root validator, so probe the class.
+            try:
+                cls.parse_obj({f.alias: {"a"}})
+                bad = True
+            except pydantic.ValidationError as e:
+                locs = [tuple(x["loc"]) for x in e.errors()]
+                bad = (f.alias,) not in locs and ("__root__",) not in locs
+            if bad:
+                self.die(f"{what}: a set is accepted for a list-valued field (the model accepts arrays only)")
         if f.shape == pf.SHAPE_DICT:
             # Parse.v: a dict-valued field takes an object and nothing else (pydantic alone would run dict()
             # over the value and turn a list of pairs, or of two-character strings, into an object)
